@@ -13,6 +13,29 @@ theorem drun_append (k : Kind) (n : Net) (m : DMon) (a b : List Atom) :
 @[simp] theorem drun_cons (k : Kind) (n : Net) (m : DMon) (a : Atom) (l : List Atom) :
     drun k n m (a :: l) = drun k n (DMon.step k n m a) l := rfl
 
+/-- last tick after an event -/
+def ltAfter (lt : Option Nat) : Event → Option Nat
+  | .tick s _ _ _ => some s
+  | _ => lt
+
+theorem envOK_cons {lt : Option Nat} {now : Nat} {e : Event} {es : List Event} (h : envOK lt now (e :: es) = true) :
+    now ≤ evSlot e ∧ (∀ t, lt = some t → ∀ s c r1 r2, e = .tick s c r1 r2 → t < s) ∧
+    envOK (ltAfter lt e) (evSlot e) es = true := by
+  cases e with
+  | tick s c r1 r2 =>
+    simp only [envOK, Bool.and_eq_true, decide_eq_true_eq] at h
+    refine ⟨h.1.2, ?_, h.2⟩
+    intro t ht s' c' a b heq
+    cases heq
+    subst ht
+    simpa using h.1.1
+  | reorg s p c =>
+    simp only [envOK, Bool.and_eq_true, decide_eq_true_eq] at h
+    exact ⟨h.1, fun _ _ _ _ _ _ hh => (nomatch hh), h.2⟩
+  | indices c =>
+    simp only [envOK, Bool.and_eq_true, decide_eq_true_eq] at h
+    exact ⟨h.1, fun _ _ _ _ _ _ hh => (nomatch hh), h.2⟩
+
 /-- the descriptor the store must hold for an owed duty -/
 def covEntry (k : Kind) (K : Nat) (d : Duty) : Entry := ⟨K, if isSync k then 0 else d.slot, d.vidx, d.tag, true⟩
 
@@ -154,5 +177,69 @@ theorem fetchPost_ok (k : Kind) (n : Net) (st : HState) (m : DMon) (p arg : Nat)
     split at h
     · rename_i heq; exact Or.inl heq
     · exact Or.inr h
+
+theorem attFetch_post (n : Net) (st : HState) (m : DMon) (ep : Nat) (r : FetchRes) :
+    FetchPost .att st (attFetch st ep r).1 m (drun .att n m (attFetch st ep r).2.2) ep (attFetch st ep r).2.1 := by
+  cases r with
+  | noIdx => exact fetchPost_void _ _ _ _ _ _ rfl (fun _ => rfl)
+  | fail => exact fetchPost_void _ _ _ _ _ _ rfl (fun _ => rfl)
+  | ok c ds =>
+    apply fetchPost_ok .att n st m ep ep c ds (attEntry ep) st.store (fun x hx _ => hx)
+    · intro d; exact ⟨rfl, fun _ => rfl⟩
+    · intro d d' h
+      have := sameKey_iff.mp h
+      simp only [attEntry] at this
+      simp [dkey, isSync, this.2.1, this.2.2]
+
+theorem propFetch_post (n : Net) (st : HState) (m : DMon) (ep : Nat) (r : FetchRes) :
+    ∃ okb, FetchPost .prop st (propFetch st ep r).1 m (drun .prop n m (propFetch st ep r).2) ep okb := by
+  cases r with
+  | noIdx => exact ⟨true, fetchPost_void _ _ _ _ _ _ rfl (fun _ => rfl)⟩
+  | fail => exact ⟨false, fetchPost_void _ _ _ _ _ _ rfl (fun _ => rfl)⟩
+  | ok c ds =>
+    refine ⟨true, ?_⟩
+    apply fetchPost_ok .prop n st m ep ep c ds (propEntry ep c) (st.store.reset ep)
+      (fun x hx hne => mem_reset.mpr ⟨hx, hne⟩)
+    · intro d
+      refine ⟨rfl, fun hd => ?_⟩
+      have := (List.mem_filter.mp hd).2
+      simp only [propEntry, covEntry, isSync, this]
+      rfl
+    · intro d d' h
+      have := sameKey_iff.mp h
+      simp only [propEntry] at this
+      simp [dkey, isSync, this.2.1, this.2.2]
+
+theorem Cov.of_due_eq {k : Kind} {st : HState} {m m' : DMon} {K : Nat} (h : Cov k st m K) (hd : m'.due = m.due) :
+    Cov k st m' K := by
+  intro A hA; rw [hd] at hA; exact h A hA
+
+theorem syncFetch_post (n : Net) (st : HState) (m : DMon) (p clock : Nat) (r : FetchRes) :
+    FetchPost .sync st (syncFetch n st p clock r).1 m (drun .sync n m (syncFetch n st p clock r).2.2) p
+      (syncFetch n st p clock r).2.1 := by
+  cases r with
+  | noIdx => exact fetchPost_void _ _ _ _ _ _ rfl (fun _ => rfl)
+  | fail => exact fetchPost_void _ _ _ _ _ _ rfl (fun _ => rfl)
+  | ok c ds =>
+    apply fetchPost_ok .sync n st m p (max (p * n.epp) (n.epoch clock)) c ds (syncEntry p c) (st.store.reset p)
+      (fun x hx hne => mem_reset.mpr ⟨hx, hne⟩)
+    · intro d
+      refine ⟨rfl, fun hd => ?_⟩
+      have := (List.mem_filter.mp hd).2
+      simp only [syncEntry, covEntry, isSync, this]
+      rfl
+    · intro d d' h
+      have := sameKey_iff.mp h
+      simp only [syncEntry] at this
+      simp [dkey, isSync, this.2.2]
+
+theorem syncFetch_flags (n : Net) (st : HState) (p clock : Nat) (r : FetchRes) :
+    (syncFetch n st p clock r).1.fetchFirst = st.fetchFirst ∧ (syncFetch n st p clock r).1.fetchCur = st.fetchCur ∧
+    (syncFetch n st p clock r).1.fetchNext = st.fetchNext ∧ (syncFetch n st p clock r).1.indicesChanged = st.indicesChanged := by
+  cases r <;> exact ⟨rfl, rfl, rfl, rfl⟩
+
+theorem propFetch_flags (st : HState) (ep : Nat) (r : FetchRes) :
+    (propFetch st ep r).1.fetchFirst = st.fetchFirst ∧ (propFetch st ep r).1.indicesChanged = st.indicesChanged := by
+  cases r <;> exact ⟨rfl, rfl⟩
 
 end Ssv.Duties
